@@ -115,7 +115,8 @@ impl Sim {
             }
             3 => {
                 // BufReader that was never used: empty internal buffer
-                let br = BufReader::with_capacity(1 + rng.usize(64), src.clone());
+                // (capacity 0 is legal too)
+                let br = BufReader::with_capacity(if rng.chance(1, 4) { rng.usize(2) } else { 1 + rng.usize(64) }, src.clone());
                 r = DeferredReader::from_buf_reader(br);
                 vname = "from_buf_reader(empty)";
             }
@@ -758,10 +759,16 @@ impl Monitor for C02 {
             _ => *rng.pick(&[2usize, 3, 7, 8, 9, 16, 17, 64, 1024]),
         };
         let mut problems = vec![];
-        let first = Op::SetChunk(c0);
-        sim.history.push(first.clone());
-        problems.extend(sim.step(&first));
-        let mut ops_done = 1u64;
+        let mut ops_done = 0u64;
+        // (one history in four keeps the chunk size the constructor chose)
+        if !rng.chance(1, 4) {
+            let first = Op::SetChunk(c0);
+            sim.history.push(first.clone());
+            problems.extend(sim.step(&first));
+            ops_done = 1;
+        } else {
+            rep.inc("histories_with_the_constructors_chunk_size");
+        }
         while problems.is_empty() && (ops_done as usize) < n_ops {
             let op = gen_op(rng, &sim, self.hostile);
             sim.history.push(op.clone());
